@@ -151,7 +151,7 @@ def run(case):
 
 def legs(tier):
     ml = 7 if tier == 'quick' else 10
-    return [Leg('ndim', _case(ml), run, 2500, 100000, max_shrink_buckets=8)]
+    return [Leg('ndim', _case(ml), run, 10000, 100000, max_shrink_buckets=8)]
 
 
 def _psi_band(case, bucket, obs=None):
